@@ -284,6 +284,26 @@ pub fn tokens(input: &str) -> Vec<String> {
     out
 }
 
+/// (kind, text) of every token of the input: kind is the name of the Token variant, text the slice
+/// of the input it carries (identifiers, numbers and strings; empty for everything else)
+pub fn token_pairs(input: &str) -> Vec<(String, String)> {
+    use crate::lexer::Token;
+    let mut out = Vec::new();
+    for t in crate::lexer::Tokenizer::new(input) {
+        let text = match t {
+            Token::Identifier(s) | Token::Int(s) | Token::Float(s) | Token::String(s) => s.to_string(),
+            _ => String::new(),
+        };
+        let dbg = format!("{:?}", t);
+        let kind = dbg.split('(').next().unwrap_or("").to_string();
+        out.push((kind, text));
+        if out.len() > 1_000_000 {
+            break;
+        }
+    }
+    out
+}
+
 // ------------------------------------------------------------------------------------------------
 // Hook entry points (called from the interpreter)
 
